@@ -297,7 +297,7 @@ func UnmarshalAttribute(attr *api.Attribute) (bgp.PathAttributeInterface, error)
 		t := bgp.BGP_ATTR_TYPE_LS
 		pathAttributeLs := &bgp.PathAttributeLs{
 			PathAttribute: bgp.PathAttribute{
-				Flags:  bgp.PathAttrFlags[t],
+				Flags:  attrFlags(t, length),
 				Type:   t,
 				Length: length,
 			},
@@ -3572,7 +3572,19 @@ func UnmarshalPrefixSID(psid *api.PrefixSID) (*bgp.PathAttributePrefixSID, error
 			return nil, fmt.Errorf("unknown or not implemented Prefix SID type: %+v", tlv)
 		}
 	}
+	s.Flags = attrFlags(t, s.Length)
 	return s, nil
+}
+
+// attrFlags returns the flags of a well-known attribute type whose value is
+// length octets long: a value longer than 255 octets needs the extended length
+// flag, and Len() depends on it.
+func attrFlags(t bgp.BGPAttrType, length uint16) bgp.BGPAttrFlag {
+	flags := bgp.PathAttrFlags[t]
+	if length > 255 {
+		flags |= bgp.BGP_ATTR_FLAG_EXTENDED_LENGTH
+	}
+	return flags
 }
 
 func UnmarshalSubTLVs(stlvs map[uint32]*api.SRv6SubTLVs) (uint16, []bgp.PrefixSIDTLVInterface, error) {
